@@ -219,12 +219,12 @@ Definition post_h (ft : ftab) (t r : msg) (rf : refs) : ftab * list event :=
        | Rwalk_ qs, Some k, Some kf =>
          let fty := match fget ft kf with Some fr => f_type fr | None => 0 end in
          let ft1 := upd_fid ft k (set_type (last_qid_type qs fty)) in
-         if negb (length qs =? length names)%nat then ft1
+         if negb (length qs =? length names)%nat then ft
          else if negb (k =? kf) then incref ft1 k else ft1
        | _, _, _ => ft end, [])
     | Topen_ _ _ =>
       (match r_fid rf with
-       | Some k => upd_fid ft k (set_opened (is_rtype r c_Ropen))
+       | Some k => if is_rtype r c_Ropen then upd_fid ft k (set_opened true) else ft
        | None => ft end, [])
     | Tcreate_ _ _ _ _ _ =>
       (match r, r_fid rf with
@@ -570,7 +570,7 @@ Proof.
   - destruct r; auto. destruct (r_newfid rf); auto. destruct (r_fid rf); auto.
     cbv zeta. destruct (negb _); auto using nodup_upd_fid.
     destruct (negb _); auto using nodup_incref, nodup_upd_fid.
-  - destruct (r_fid rf); auto using nodup_upd_fid.
+  - destruct (r_fid rf); auto. destruct (is_rtype r c_Ropen); auto using nodup_upd_fid.
   - destruct r; auto. destruct (r_fid rf); auto using nodup_upd_fid.
   - destruct r; auto. destruct (r_fid rf); auto. destruct (fget ft n); auto.
     destruct (has_bit _ _); auto using nodup_upd_fid.
